@@ -269,15 +269,15 @@ theorem atomB_P_ok {P F : List Char → R E} {ctx : Ctx} {s r : List Char} {t : 
   unfold atomB; rw [h]
 
 theorem atomB_lex {P F : List Char → R E} {ctx : Ctx} {s r : List Char} {t : E}
-    (h1 : P s = .fail) (h2 : lexDouble s = some (r, t)) : atomB P F ctx s = .ok r t := by
+    (h1 : P s = .fail) (h2 : parseConst s = some (r, t)) : atomB P F ctx s = .ok r t := by
   unfold atomB; rw [h1, h2]
 
 theorem atomB_F_ok {P F : List Char → R E} {ctx : Ctx} {s r : List Char} {t : E}
-    (h1 : P s = .fail) (h2 : lexDouble s = none) (h3 : F s = .ok r t) : atomB P F ctx s = .ok r t := by
+    (h1 : P s = .fail) (h2 : parseConst s = none) (h3 : F s = .ok r t) : atomB P F ctx s = .ok r t := by
   unfold atomB; rw [h1, h2, h3]
 
 theorem atomB_var {P F : List Char → R E} {ctx : Ctx} {s : List Char}
-    (h1 : P s = .fail) (h2 : lexDouble s = none) (h3 : F s = .fail) :
+    (h1 : P s = .fail) (h2 : parseConst s = none) (h3 : F s = .fail) :
     atomB P F ctx s = parseVar ctx s := by
   unfold atomB; rw [h1, h2, h3]
 
@@ -307,7 +307,7 @@ theorem atom_num {ctx : Ctx} {t : E} {s : List Char} (hn : NumLeaf t s) : MotA c
     subst e
     rcases hc with h | h | h | h <;> revert h <;> decide
   obtain ⟨f0, h⟩ := ev_parseParenth_other (ctx := ctx) hp
-  exact ⟨f0, fun f hf => atomB_lex (h f hf) (lexDouble_numLeaf hn hr)⟩
+  exact ⟨f0, fun f hf => atomB_lex (h f hf) (parseConst_numLeaf hn hr)⟩
 
 /-- a name does not start with an opening parenthesis -/
 theorem name_ne_paren {n : List Char} (hn : IsName n) (x : List Char) : ∀ r, n ++ x ≠ '(' :: r := by
@@ -346,7 +346,7 @@ theorem ev_parseFunc_notfn {ctx : Ctx} {n rest : List Char} {el : CtxEl} (hn : I
   | const => rfl
   | var i => rfl
 
-theorem atom_call {arity : Nat} {ctx : Ctx} (hok : CtxOK arity ctx) {n : List Char} {t : E}
+theorem atom_call {arity : Nat} {ctx : Ctx} (hok : CtxOK' arity ctx) {n : List Char} {t : E}
     {s : List Char} (hn : IsName n) (hg : ctx.get (String.ofList n) = some .uop) (ih : MotE ctx t s) :
     MotA ctx (.un ((UFn.ofName (String.ofList n)).getD (.user (String.ofList n))) t)
       (n ++ '(' :: s ++ [')']) := by
@@ -355,17 +355,17 @@ theorem atom_call {arity : Nat} {ctx : Ctx} (hok : CtxOK arity ctx) {n : List Ch
   rw [e]
   obtain ⟨f1, h1⟩ := ev_parseParenth_other (ctx := ctx) (name_ne_paren hn ('(' :: (s ++ ')' :: rest)))
   obtain ⟨f2, h2⟩ := ev_parseFunc_call hn hg (motE_close ih rest)
-  have hl := lexDouble_name (rest := '(' :: (s ++ ')' :: rest)) hok hn hg (Stops.cons _ (by decide))
+  have hl := parseConst_name (rest := '(' :: (s ++ ')' :: rest)) hok hn hg (Stops.cons _ (by decide))
   exact ⟨max f1 f2, fun f hf => atomB_F_ok (h1 f (by omega)) hl (h2 f (by omega))⟩
 
-theorem atom_cst {arity : Nat} {ctx : Ctx} (hok : CtxOK arity ctx) {n : List Char}
+theorem atom_cst {arity : Nat} {ctx : Ctx} (hok : CtxOK' arity ctx) {n : List Char}
     (hn : IsName n) (hg : ctx.get (String.ofList n) = some .const) :
     MotA ctx (.cst (String.ofList n)) n := by
   intro rest hr
   obtain ⟨_, ha, _⟩ := stops_atomCont hr
   obtain ⟨f1, h1⟩ := ev_parseParenth_other (ctx := ctx) (name_ne_paren hn rest)
   obtain ⟨f2, h2⟩ := ev_parseFunc_notfn hn ha hg (by simp)
-  have hl := lexDouble_name hok hn hg ha
+  have hl := parseConst_name hok hn hg ha
   refine ⟨max f1 f2, fun f hf => ?_⟩
   show atomB _ _ ctx (n ++ rest) = _
   rw [atomB_var (h1 f (by omega)) hl (h2 f (by omega))]
@@ -373,14 +373,14 @@ theorem atom_cst {arity : Nat} {ctx : Ctx} (hok : CtxOK arity ctx) {n : List Cha
   rw [alpha1_append hn ha]
   simp only [hg]
 
-theorem atom_var {arity : Nat} {ctx : Ctx} (hok : CtxOK arity ctx) {n : List Char} {i : Nat}
+theorem atom_var {arity : Nat} {ctx : Ctx} (hok : CtxOK' arity ctx) {n : List Char} {i : Nat}
     (hn : IsName n) (hg : ctx.get (String.ofList n) = some (.var i)) :
     MotA ctx (.var i) n := by
   intro rest hr
   obtain ⟨_, ha, _⟩ := stops_atomCont hr
   obtain ⟨f1, h1⟩ := ev_parseParenth_other (ctx := ctx) (name_ne_paren hn rest)
   obtain ⟨f2, h2⟩ := ev_parseFunc_notfn hn ha hg (by simp)
-  have hl := lexDouble_name hok hn hg ha
+  have hl := parseConst_name hok hn hg ha
   refine ⟨max f1 f2, fun f hf => ?_⟩
   show atomB _ _ ctx (n ++ rest) = _
   rw [atomB_var (h1 f (by omega)) hl (h2 f (by omega))]
@@ -508,7 +508,7 @@ theorem expr_sub {ctx : Ctx} {l r : E} {s1 s2 : List Char}
 /-! ### assembly: mutual induction over the five levels of the grammar -/
 
 /-- **every string of the grammar is parsed to its tree, in any legal context** -/
-theorem prints_motE {arity : Nat} {ctx : Ctx} (hok : CtxOK arity ctx) {t : E} {s : List Char}
+theorem prints_motE {arity : Nat} {ctx : Ctx} (hok : CtxOK' arity ctx) {t : E} {s : List Char}
     (h : PExpr ctx t s) : MotE ctx t s :=
   PExpr.rec
     (motive_1 := fun t s _ => MotE ctx t s)
@@ -535,7 +535,7 @@ theorem prints_motE {arity : Nat} {ctx : Ctx} (hok : CtxOK arity ctx) {t : E} {s
     h
 
 /-- the whole input: for all sufficiently large fuel `parseExpr` returns the tree and no rest -/
-theorem prints_ev {arity : Nat} {ctx : Ctx} (hok : CtxOK arity ctx) {t : E} {s : List Char}
+theorem prints_ev {arity : Nat} {ctx : Ctx} (hok : CtxOK' arity ctx) {t : E} {s : List Char}
     (h : PExpr ctx t s) : Ev (fun f => parseExpr f ctx s) (.ok [] t) := by
   have := prints_motE hok h [] follM_nil _
     (ev_loopAdd_stop (fun _ e => (nomatch e)) (fun _ e => (nomatch e)))
